@@ -150,11 +150,11 @@ def leaf_strings(T, limit=24):
                 walk(ft, tv2, depth + 1)
         elif k == "namedtuple":
             for n, ft in tinfo.nt_fields(ti.type):
-                walk(ft, tv, depth + 1)
+                walk(ft, tinfo.scope(ti, tv), depth + 1)
         elif k == "typeddict":
             hints, req, opt = tinfo.td_keys(ti.type)
             for kk in hints:
-                walk(hints[kk], tv, depth + 1)
+                walk(hints[kk], tinfo.scope(ti, tv), depth + 1)
 
     walk(T)
     return out[:limit]
